@@ -661,6 +661,62 @@ class AfterFailures(object):
         return repr(sorted((k, str(v)) for k, v in res.items())), vs, 2
 
 
+class ParentEditions(object):
+    name = 'N-parent-module-edited-between-calls'
+    describe = ('ONE compiler (one parser, one code generator, one symbol-table generator), rebuild on: LIB-MIB is compiled with '
+                'TOP-MIB, whose nodes hang below a node imported from LIB-MIB; then the text of LIB-MIB changes (another arc for the '
+                'imported node, another parent for it) and both are compiled again: every ordered sequence of two or three of '
+                'four editions; after every call every OID is the one the texts of THAT call declare')
+
+    ED = {'a': ('enterprises 55', 1), 'b': ('enterprises 56', 1), 'c': ('enterprises 55', 2), 'd': ('enterprises 55 9', 1)}
+
+    def blocks(self, tier):
+        return [{'backend': b} for b in ('json', 'pysnmp')]
+
+    def cases(self, block, tier):
+        for n in (2, 3):
+            for seq in itertools.product(sorted(self.ED), repeat=n):
+                if all(seq[i] != seq[i + 1] for i in range(n - 1)):
+                    yield {'backend': block['backend'], 'seq': ''.join(seq)}
+
+    def run_case(self, case):
+        hdr = 'IMPORTS OBJECT-TYPE, enterprises FROM SNMPv2-SMI'
+        top = ('TOP-MIB DEFINITIONS ::= BEGIN\n%s libLeaf FROM LIB-MIB;\ntopObj OBJECT-TYPE SYNTAX INTEGER MAX-ACCESS read-only STATUS current '
+               'DESCRIPTION "d" ::= { topNode 2 }\ntopNode OBJECT IDENTIFIER ::= { libLeaf 7 }\nEND\n' % hdr)
+        texts = env.base_texts()
+        texts['TOP-MIB'] = top
+        w = env.CaptureWriter()
+        comp = env.MibCompiler(env.fresh_parser('smiV2'), env.make_codegen(case['backend']), w)
+        comp.addSources(env.DictReader(texts, tag='first'))
+        comp.addSearchers(env.StubSearcher(*env.BASE_NAMES))
+        sig = 'C01|N|%s' % case['backend']
+        vs = []
+        steps = 0
+        for k, e in enumerate(case['seq']):
+            root, arc = self.ED[e]
+            texts['LIB-MIB'] = ('LIB-MIB DEFINITIONS ::= BEGIN\n%s;\nlibLeaf OBJECT IDENTIFIER ::= { libRoot %d }\n'
+                                'libRoot OBJECT IDENTIFIER ::= { %s }\nEND\n' % (hdr, arc, root))
+            steps += 1
+            try:
+                res = comp.compile('TOP-MIB', rebuild=True)
+            except Exception as exc:
+                return 'escaped', [('%s|exception-escapes-compile|%s' % (sig, type(exc).__name__), repr(exc)[:300])], steps
+            base = '1.3.6.1.4.1.' + '.'.join(root.split()[1:])
+            want = {'LIB-MIB': {base, '%s.%d' % (base, arc)},
+                    'TOP-MIB': {'%s.%d.7' % (base, arc), '%s.%d.7.2' % (base, arc)}}
+            for n, oids in sorted(want.items()):
+                if res.get(n) != 'compiled':
+                    vs.append(('%s|call-%d|valid-module-%s' % (sig, k + 1, res.get(n)), '%s %s: %r' % (case['seq'], n, res.get(n))))
+                    continue
+                got = set(getattr(res[n], 'oids', ()) or ())
+                if got != oids:
+                    vs.append(('%s|call-%d|status.oids-are-those-of-an-earlier-edition' % (sig, k + 1),
+                               'editions %s, %s: %r, declared now %r' % (case['seq'], n, sorted(got), sorted(oids))))
+            if vs:
+                break
+        return case['seq'], vs, steps
+
+
 class FileEdges(object):
     name = 'J-file-edges'
     describe = ('ONE parser object reads a chain of two (quick) or three (thorough) modules importing each other\'s nodes; every text '
@@ -824,4 +880,4 @@ def _parents_from_the_old_base_modules():
     return OldBaseParents()
 
 
-FAMILIES = [_parents_from_the_old_base_modules(), Shapes(), Spellings(), Kinds(), SameNames(), ArcZero(), TableOrders(), ArcValues(), NoDepsChains(), AfterFailures(), FileEdges(), ImportGroups(), LineEnds()]
+FAMILIES = [_parents_from_the_old_base_modules(), Shapes(), Spellings(), Kinds(), SameNames(), ArcZero(), TableOrders(), ArcValues(), NoDepsChains(), AfterFailures(), ParentEditions(), FileEdges(), ImportGroups(), LineEnds()]
